@@ -155,12 +155,14 @@ func c10tDecode(b []byte) (res string, v any) {
 			res, v = "panic", nil
 		}
 	}()
-	dec := json.NewDecoder(bytes.NewReader(b))
+	br := bytes.NewReader(b)
+	dec := json.NewDecoder(br)
 	dec.UseNumber()
 	if err := dec.Decode(&v); err != nil {
 		return "err", nil
 	}
-	rest, _ := io.ReadAll(io.MultiReader(dec.Buffered()))
+	// what the decoder has buffered but not consumed, then what it has not read yet
+	rest, _ := io.ReadAll(io.MultiReader(dec.Buffered(), br))
 	for _, c := range rest {
 		if c != ' ' && c != '\t' && c != '\n' && c != '\r' {
 			return "err", nil
